@@ -1,3 +1,4 @@
+import math
 import re
 import typing
 from collections import deque
@@ -1062,9 +1063,22 @@ class Constraints:
         return value
 
     @classmethod
+    def _lax_bound(cls, value, bound, rounding):
+        # the bound that replaces a value has the type of that value: int with ge=Lax(0.5) gives 1, not 0.5
+        t = type(value)
+        if type(bound) is t or isinstance(value, bool):
+            return bound
+        try:
+            if isinstance(value, int) and not isinstance(bound, int):
+                return t(rounding(bound))
+            return t(bound)
+        except Exception:
+            return bound
+
+    @classmethod
     def lax_ge(cls, value, ge):
         if value < ge:
-            return ge
+            return cls._lax_bound(value, ge, math.ceil)
         return value
 
     @classmethod
@@ -1082,7 +1096,7 @@ class Constraints:
     @classmethod
     def lax_le(cls, value, le):
         if value > le:
-            return le
+            return cls._lax_bound(value, le, math.floor)
         return value
 
     @classmethod
